@@ -82,6 +82,11 @@ func constVal(c *Ctx, short string) (int64, bool) {
 }
 
 func runC02(c *Ctx) {
+	// the frame decoder reads a frame body with one Read: its reader must always be the fullReader wrapper
+	{
+		codecFns := c.P.Funcs(Mod + "/" + pkgCodec)
+		checkFullReader(c, codecFns, NewLockCtx(c.P, codecFns))
+	}
 	// spec constants from the property statement
 	const specFrame = 1<<21 - 1
 	const specSB, specCB = 2 << 20, 8 << 20
@@ -399,6 +404,8 @@ func runC01(c *Ctx) {
 	checkGuarded(c, lc, codecFns, GuardSpec{Type: pkgCodec + ":Encoder", Mutex: "mu", Fields: []string{"wr", "compression", "registry", "state"}})
 	checkGuarded(c, lc, codecFns, GuardSpec{Type: pkgCodec + ":Decoder", Mutex: "mu", Fields: []string{"rd", "compression", "compressionThreshold", "zrd"}})
 	c.Floor("guarded", 25)
+
+	checkCompressionEnableAgreement(c)
 
 	// (2) threshold agreement
 	wc := c.MustFunc(pkgCodec + ":(*Encoder).writeCompressed")
